@@ -38,6 +38,13 @@ func c15Gen(seed uint64, tier string) any {
 			d.Sides = 1 << 20
 		}
 		d.Via, d.Source = "vm", "pcg"
+		if d.HasMin && d.HasMax {
+			if r.Bool() {
+				d.HasMax = false // the grammar takes one of min / max per term
+			} else {
+				d.HasMin = false
+			}
+		}
 		sc.Terms = append(sc.Terms, d)
 		sc.Coefs = append(sc.Coefs, int64(Pick(r, []int{1, 1, 1, 2, 3, 0, 10})))
 	}
@@ -102,7 +109,7 @@ func c15Eval(expr string, mode string, seed uint64, force func(int64) int64, m *
 		r.err = o.Err + o.Panic
 		return r
 	}
-	if vm.RestInput != "" {
+	if strings.TrimSpace(vm.RestInput) != "" {
 		r.err = "rest:" + vm.RestInput
 		return r
 	}
